@@ -295,15 +295,23 @@ class PkgShim:
 
 
 def canonical_trace(trace):
-    """drop the lock release that follows an injected I/O fault (the machine releases inside the faulting step)"""
-    out, skip = [], {}
+    """
+    * drop the lock release that follows an injected I/O fault (the machine releases inside the faulting step);
+    * a write lock (C or P) acquired and released with no dataset call in between is the write of a block whose output window
+      does not meet the dataset (`to_rio_dataset` returns before touching the dataset - the D13 repair): the machine's `io`
+      step stands for the `to_rio_dataset` call, so the (empty) step is made explicit.
+    """
+    out, skip, last = [], {}, {}
     for wid, lab in trace:
         if skip.get(wid) and lab == 'rel' + skip[wid]:
             skip[wid] = None
             continue
         if lab.startswith('fail') and len(lab) == 5:
             skip[wid] = lab[4]
+        if lab in ('relC', 'relP') and last.get(wid) == 'acq' + lab[3]:
+            out.append((wid, 'io' + lab[3]))
         out.append((wid, lab))
+        last[wid] = lab
     return out
 
 
